@@ -83,6 +83,26 @@ EXC = {
 
 
 def mkexc(name, msg):
+    if name == 'Chained':        # raise X from Y
+        e = ValueError(msg)
+        e.__cause__ = KeyError('the cause')
+        return e
+    if name == 'Context':        # raised while handling another exception
+        e = ValueError(msg)
+        e.__context__ = KeyError('the context')
+        return e
+    if name == 'Chain3':
+        e = ValueError(msg)
+        c = KeyError('mid')
+        c.__context__ = OSError('root')
+        e.__cause__ = c
+        return e
+    if name == 'Group':
+        return ExceptionGroup(msg, [ValueError('g1'), KeyError('g2')])
+    if name == 'Noted':
+        e = ValueError(msg)
+        e.add_note('a note on the exception')
+        return e
     if name == 'Unicode':
         return UnicodeDecodeError('utf-8', b'\xff', 0, 1, msg)
     if name == 'SystemExit':
